@@ -14,7 +14,22 @@ import (
 // C04 - negated operators are complements; contains is in flipped.
 
 // setup draws a document, one representation and options.
+// collisionDatum: keys containing '.', '/' and '~' whose joined spellings
+// collide with nested paths (a.b.c vs a["b.c"], a/b vs a.b, ...). Any cache or
+// comparison keyed by a joined path would confuse them.
+var collisionDatum = univ.IfaceMap(
+	"a", univ.IfaceMap("b.c", univ.Int(1), "b", univ.IfaceMap("c", univ.Int(2), "c/d", univ.Str("s")), "b/c", univ.Int(3), "b~c", univ.IfaceSlice(univ.Int(1))),
+	"a/b", univ.IfaceMap("c", univ.Int(4)),
+	"x", univ.IfaceMap("y", univ.IfaceMap("z", univ.Str("deep")), "y/z", univ.Str("slash"), "y.z", univ.Str("dot"), "0", univ.IfaceSlice(univ.Str("deep"))),
+	"l", univ.IfaceSlice(univ.IfaceMap("k", univ.Int(1)), univ.IfaceMap("k", univ.Int(2))),
+	"l/0", univ.IfaceMap("k", univ.Int(9)),
+)
+
 func drawDatum(c *mon.Ctx, idx int, r *rand.Rand) (*univ.Node, *refsem.Options) {
+	if idx%6 == 5 {
+		c.Count("collision_datum_cases")
+		return collisionDatum, &refsem.Options{}
+	}
 	doc := univ.GenObj(r, 3, true)
 	node := univ.Represent(rand.New(rand.NewSource(r.Int63())), doc, univ.Policy{Mode: idx % 5, Hidden: true, HiddenSeed: 11})
 	return node, genOptions(r)
@@ -131,9 +146,19 @@ func c03Run(c *mon.Ctx, idx int) {
 // ---------------------------------------------------------------------------
 // C04
 
+var c04Zoo = univ.Zoo()
+
 func c04Run(c *mon.Ctx, idx int) {
 	r := c.RNG(idx)
 	node, opt := drawDatum(c, idx, r)
+	zooCase := idx%4 == 3
+	if zooCase {
+		// the value shapes of the deterministic matrix (narrow and odd key
+		// types, nil / pointer elements, json.Number, ...) under all pairs
+		z := c04Zoo[(idx/4)%len(c04Zoo)]
+		node = univ.IfaceMap("v", z.N, "o", univ.IfaceMap("v", z.N))
+		c.Count("zoo_cases")
+	}
 	g := newEgen(r, node, opt)
 	g.pBroken = 0.3
 	for k := 0; k < 4; k++ {
@@ -146,6 +171,9 @@ func c04Run(c *mon.Ctx, idx int) {
 			var lit *xgen.Lit
 			if pos.HasValue() {
 				lit = g.literalFor(pos, val)
+				if zooCase && r.Intn(2) == 0 {
+					lit = &xgen.Lit{S: c01MatrixLits[r.Intn(len(c01MatrixLits))], Style: xgen.StyleQuoted}
+				}
 			}
 			mk := func(op xgen.Op, contains bool) *xgen.Match {
 				return &xgen.Match{Sel: sel, Op: op, Lit: lit, Contains: contains}
@@ -212,7 +240,7 @@ func init() {
 		NumCases:    func(tier string) int { return tierN(tier, 8000, 400000) },
 		Run:         c03Run,
 		Required: func(tier string) []string {
-			l := []string{"quantified_operand", "cell:not/T", "cell:not/F", "cell:not/E"}
+			l := []string{"quantified_operand", "collision_datum_cases", "cell:not/T", "cell:not/F", "cell:not/E"}
 			for _, op := range []string{"and", "or"} {
 				for _, a := range []string{"T", "F", "E"} {
 					for _, b := range []string{"T", "F", "E"} {
@@ -230,7 +258,7 @@ func init() {
 		NumCases:    func(tier string) int { return tierN(tier, 6000, 300000) },
 		Run:         c04Run,
 		Required: func(tier string) []string {
-			l := []string{"contains_pairs"}
+			l := []string{"contains_pairs", "zoo_cases"}
 			for _, op := range []string{"==", "in", "is empty", "matches"} {
 				l = append(l, "pair:"+op+"/T", "pair:"+op+"/F", "pair:"+op+"/E", "pair-absent:"+op)
 			}
